@@ -17,11 +17,11 @@ theorem AdjKind.tail {a : JNode} {l : List JNode} (h : AdjKind (a :: l)) : AdjKi
   | cons b r => exact h.2
 
 mutual
-/-- the trees the theorem is about: metadata on containers and list entries only (v2; leaves and leaf-list instances carry none),
+/-- the trees the theorem is about: metadata on leaves, containers and list entries (v3; leaf-list instances carry none),
     a node's schema node differs from those of its ancestors (`anc`), adjacent instances of one schema node are of one kind -/
 def Ok (anc : List Nat) : JNode → Prop
   | .mk kind sid _ _ _ metas _ _ kids =>
-    ((kind = .leaf ∨ kind = .leaflist) → metas = []) ∧ sid ∉ anc ∧ AdjKind kids ∧ OkL (sid :: anc) kids
+    (kind = .leaflist → metas = []) ∧ sid ∉ anc ∧ AdjKind kids ∧ OkL (sid :: anc) kids
 def OkL (anc : List Nat) : List JNode → Prop
   | [] => True
   | n :: r => Ok anc n ∧ OkL anc r
@@ -138,7 +138,42 @@ def KidsSpec (anc : List Nat) (modName : Bytes) (kids : List JNode) : Prop :=
     ∃ s3 q, printSibs s2 (some modName) before' kids = (cc p (members false (some modName) (items kids)), s3) ∧
       Inv s3 L' O' (.closed q)
 
-def itemOf (n : JNode) : Item := ⟨n.sid, n.kind.isArr, n.modName, n.name, n.shown, body n⟩
+def itemOf (n : JNode) : Item := ⟨n.sid, n.kind.isArr, n.modName, n.name, n.shown, body n, afterOf n⟩
+
+theorem afterMem_of_nil (top : Bool) (pmod : Option Bytes) (i : Item) (h : i.after = []) : afterMem top pmod i = [] := by
+  simp [afterMem, h]
+
+theorem afterOf_notleaf (kind : NKind) (sid : Nat) (modName name : Bytes) (shown : Bool) (metas : List JMeta) (vkind : VKind)
+    (value : Bytes) (kids : List JNode) (h : kind ≠ .leaf) : afterOf (.mk kind sid modName name shown metas vkind value kids) = [] := by
+  cases kind <;> simp_all [afterOf, JNode.kind] <;> (intro h'; exact absurd h' (by decide))
+
+theorem afterOf_leaf_nil (sid : Nat) (modName name : Bytes) (shown : Bool) (vkind : VKind)
+    (value : Bytes) (kids : List JNode) : afterOf (.mk .leaf sid modName name shown [] vkind value kids) = [] := by
+  simp [afterOf, JNode.metas]
+
+theorem afterOf_leaf_cons (sid : Nat) (modName name : Bytes) (shown : Bool) (m : JMeta) (ms : List JMeta) (vkind : VKind)
+    (value : Bytes) (kids : List JNode) :
+    afterOf (.mk .leaf sid modName name shown (m :: ms) vkind value kids) = metaObjText (m :: ms) := by
+  simp [afterOf, JNode.metas, JNode.kind]
+  intro h'; exact absurd h' (by decide)
+
+theorem afterMem_notleaf (top : Bool) (pmod : Option Bytes) (a : Nat) (b : Bool) (c d : Bytes) (e : Bool) (f : Bytes)
+    (kind : NKind) (sid : Nat) (modName name : Bytes) (shown : Bool) (metas : List JMeta) (vkind : VKind)
+    (value : Bytes) (kids : List JNode) (h : kind ≠ .leaf) :
+    afterMem top pmod ⟨a, b, c, d, e, f, afterOf (.mk kind sid modName name shown metas vkind value kids)⟩ = [] := by
+  simp [afterMem, afterOf_notleaf kind sid modName name shown metas vkind value kids h]
+
+theorem member_at (s : St) (pmod : Option Bytes) (modName name : Bytes) :
+    member { s with lp := s.level } pmod modName name true = [44] ++ keyAt (s.level == 1) pmod modName name := by
+  simp [member, comma, keyAt, List.append_assoc]
+
+theorem metaObjText_ne_nil (ms : List JMeta) : (metaObjText ms).isEmpty = false := by simp [metaObjText]
+
+/-- the metadata object after its member name (`json_print_metadata` between braces) -/
+theorem metaObject_eq (s : St) (m : JMeta) (ms : List JMeta) (hlp : s.lp ≤ s.level) :
+    metaObject s (m :: ms) = (metaObjText (m :: ms), { s with lp := s.level }) := by
+  have h1 : ¬ (s.lp ≥ s.level + 1) := by omega
+  simp [metaObject, printMetas_eq, h1, metaObjText, cc_false_eq_sep]
 
 theorem items_cons (n : JNode) (r : List JNode) : items (n :: r) = itemOf n :: items r := by
   simp [items, itemOf]
@@ -179,12 +214,23 @@ theorem node_step_closed (s : St) (pmod : Option Bytes) (n : JNode) (isLast : Bo
     exact ⟨hpd, trivial, hl, ho, hpd, hle, hp⟩
   · cases kind
     · -- leaf
-      have := hmeta (Or.inl rfl); subst this
-      simp only [printNode, Bool.not_true, Bool.false_eq_true, if_false, List.isEmpty_nil, if_true, simStep, itemOf, JNode.shown,
-        JNode.kind, NKind.isArr, JNode.sid, JNode.modName, JNode.name, body, tailSt, Bool.false_and]
-      refine ⟨hpd, by rw [hmem], hl, ho, hpd, by simp [hl], by simp [hl]⟩
+      cases metas with
+      | nil =>
+        simp only [printNode, Bool.not_true, Bool.false_eq_true, if_false, List.isEmpty_nil, if_true, simStep, itemOf, JNode.shown,
+          JNode.kind, NKind.isArr, JNode.sid, JNode.modName, JNode.name, body, tailSt, Bool.false_and, afterOf_leaf_nil,
+          afterMem_of_nil, cc, List.append_nil]
+        refine ⟨hpd, by rw [hmem], hl, ho, hpd, by simp [hl], by simp [hl]⟩
+      | cons m ms =>
+        have hlp : ({ s with lp := s.level } : St).lp ≤ ({ s with lp := s.level } : St).level := by simp
+        have hcm : comma ({ s with lp := s.level } : St) = [44] := by simp [comma]
+        simp only [printNode, Bool.not_true, Bool.false_eq_true, if_false, List.isEmpty_cons, simStep, itemOf, JNode.shown,
+          JNode.kind, NKind.isArr, JNode.sid, JNode.modName, JNode.name, body, tailSt, Bool.false_and, afterOf_leaf_cons,
+          afterMem, metaObjText_ne_nil, cc, List.append_nil, metaObject_eq _ m ms hlp, member_at, if_true]
+        refine ⟨hpd, ?_, hl, ho, hpd, by simp [hl], by simp [hl]⟩
+        rw [hmem]
+        simp [hl, List.append_assoc]
     · -- leaf-list
-      have := hmeta (Or.inr rfl); subst this
+      have := hmeta rfl; subst this
       simp only [printNode, Bool.not_true, Bool.false_eq_true, if_false, hopen, List.isEmpty_nil, simStep, itemOf, JNode.shown,
         JNode.kind, NKind.isArr, JNode.sid, JNode.modName, JNode.name, body, tailSt, Bool.false_and, if_true, Bool.not_false,
         Bool.and_false]
@@ -204,7 +250,7 @@ theorem node_step_closed (s : St) (pmod : Option Bytes) (n : JNode) (isLast : Bo
         obtain ⟨s3, q, hpk, hi3⟩ := hk false { s with level := s.level + 1 } [] (L + 1) O (by omega) hs2
           (fun x hx => List.mem_cons_of_mem _ (hO x hx))
         simp only [printNode, Bool.not_true, Bool.false_eq_true, if_false, innerPre, List.isEmpty_nil, if_true, Bool.false_and,
-          List.append_nil, hpk, cc_false_eq_sep, metaMember, innerPost, simStep, itemOf, JNode.shown, JNode.kind, NKind.isArr, JNode.sid, JNode.modName,
+          List.append_nil, hpk, cc_false_eq_sep, metaMember, afterMem_notleaf, ne_eq, reduceCtorEq, not_false_eq_true, cc, innerPost, simStep, itemOf, JNode.shown, JNode.kind, NKind.isArr, JNode.sid, JNode.modName,
           JNode.name, body, tailSt, JNode.kids]
         obtain ⟨h3l, h3o, h3p, _, _⟩ := hi3
         refine ⟨h3p, by simp [hmem, List.append_assoc], ?_⟩
@@ -218,7 +264,8 @@ theorem node_step_closed (s : St) (pmod : Option Bytes) (n : JNode) (isLast : Bo
         obtain ⟨h3l, h3o, h3p, _, _⟩ := hi3
         simp only [printNode, Bool.not_true, Bool.false_eq_true, if_false, innerPre_meta s m ms false hlp, Bool.false_and, hpk, innerPost,
           simStep, itemOf, JNode.shown, JNode.kind, NKind.isArr, JNode.sid, JNode.modName, JNode.name, body, tailSt, JNode.kids,
-          metaMember, List.isEmpty_cons, List.cons_append, List.nil_append, sep_cons_cc, if_true]
+          metaMember, List.isEmpty_cons, List.cons_append, List.nil_append, sep_cons_cc, if_true, afterMem_notleaf, ne_eq, reduceCtorEq,
+          not_false_eq_true, cc, List.append_nil]
         refine ⟨h3p, by simp [hmem, List.append_assoc], ?_⟩
         simp [Inv, hl, h3o, h3p]
     · -- list
@@ -287,7 +334,7 @@ theorem node_step_opened (s : St) (pmod : Option Bytes) (n : JNode) (isLast : Bo
   · cases kind
     · simp [NKind.isArr] at harr
     · -- leaf-list item
-      have := hmeta (Or.inr rfl); subst this
+      have := hmeta rfl; subst this
       simp only [printNode, Bool.not_true, Bool.false_eq_true, if_false, hopen, List.isEmpty_nil, simStep, itemOf, JNode.shown,
         JNode.kind, NKind.isArr, JNode.sid, JNode.modName, JNode.name, body, tailSt, Bool.false_and, if_true, Bool.not_false,
         Bool.and_false]
